@@ -20,7 +20,7 @@ RULE = ('case = (operator program of assign/filter operators from the C08 gramma
         'differential against the sequential single-stage run of the same case: equal multiset of emitted records and equal '
         'aggregate, exactly one AggregateResult for the interleaved runner; non-trivial = threads >= 2 or stages >= 2 or shards >= 2 '
         'with >= 3 records; distinct = distinct canonical case JSON'
-        '; also: sources as merged sequences with boundaries at shard ends, shard states merged from a one-shot stream, stage-by-stage manual runs, interleaved runs with aggregate_only')
+        '; also: sources as merged sequences with boundaries at shard ends, shard states merged from a one-shot stream, stage-by-stage manual runs, interleaved runs with aggregate_only, shard states merged by the aggregate-only runner, a second aggregate with a bare-number state (minimum)')
 ASSUMPTIONS = [
     'threaded variants run under vlib/dsched.py (same trusted base as C04); the interleaved runner uses real threads with a watchdog',
     'the aggregate is exact (integer sum / row count) so merged shard states must reproduce it exactly',
@@ -41,7 +41,9 @@ def _canon(x):
 
 
 def _with_agg(t):
-  return t.aggregate(targets.RowSum(), input_keys=('a', 'b'), output_keys=('rs', 'rn'))
+  # ... and a second aggregate whose state is a bare number (falsy when the smallest value so far is 0)
+  return t.aggregate(targets.RowSum(), input_keys=('a', 'b'), output_keys=('rs', 'rn')).add_aggregate(
+      fn=targets.RowMin(), input_keys='b', output_keys='bmin')
 
 
 def build_stages(case, records, names, shard=None):
@@ -160,6 +162,10 @@ def run_case(case):
       n = len(case.get('cuts', [])) + 1
       t = build_stages(case, records, [f'S{i}' for i in range(n)])
       runner = t.make()
+      if strat_.get('merge_with') == 'aggregate_runner':
+        # the merging side only needs the aggregations (this is how the orchestration layer merges shard states)
+        from ml_metrics._src.chainables import transform  # pylint: disable=g-import-not-at-top
+        runner = t.make(mode=transform.RunnerMode.AGGREGATE)
       got_out, states = [], []
       for i in range(k):
         it = build_stages(case, records, [f'S{j}' for j in range(n)], shard=(i, k)).make().iterate()
@@ -245,7 +251,8 @@ def strat_structural(tier):
     if kind == 'shards':
       k = draw(st.integers(1, 6))
       case['strategy'] = {'kind': kind, 'k': k, 'order': draw(st.permutations(list(range(k)))),
-                          'merge_from': draw(st.sampled_from(['list', 'iterator']))}
+                          'merge_from': draw(st.sampled_from(['list', 'iterator'])),
+                          'merge_with': draw(st.sampled_from(['runner', 'aggregate_runner']))}
     else:
       case['strategy'] = {'kind': kind}
     return case
